@@ -521,13 +521,15 @@ def execute(program, ch: Chooser) -> Result:  # noqa: C901, PLR0912, PLR0915
                 b: cabc.Mapping[str, T] | None = None
                 c: tuple[T, ...] = ()
                 d: ak.QSeq[T] = ()  # parametrised alias applied to the class' own type variable
+                e: cabc.Sequence[cabc.Sequence[T]] = ()  # the type variable two container levels deep
+                f: cabc.Mapping[str, cabc.Sequence[T]] | None = None
 
             H = Host[ak.annotation(leaf)]
         except Exception as exc:  # noqa: BLE001
             viols.append(viol("declaration", f"host/{leaf[0]}", "declares", f"{type(exc).__name__}: {exc}"[:160]))
             return Result("host/decl-fails", True, viols, program, steps=1)
         base = ak.values(["seq", leaf])[0]
-        for attr, t in (("a", ["seq", leaf]), ("b", ["optional", ["map_str", leaf]]), ("c", ["tuplev", leaf]), ("d", ["seq", leaf])):
+        for attr, t in (("a", ["seq", leaf]), ("b", ["optional", ["map_str", leaf]]), ("c", ["tuplev", leaf]), ("d", ["seq", leaf]), ("e", ["seq", ["seq", leaf]]), ("f", ["optional", ["map_str", ["seq", leaf]]])):
             _, cases = _cases(t)
             for v in cases:
                 if v is ak.MISSING and attr != "a":
